@@ -429,33 +429,34 @@ def localPow10 (n : Nat) : Option Nat := if 10 ^ n < 2 ^ 63 then some (10 ^ n) e
 /-- two's-complement reading of a 64-bit pattern (`int64_t d = igris_atou64(..)`) -/
 def toInt64 (u : Nat) : Int := if u < 2 ^ 63 then u else (u : Int) - 2 ^ 64
 
+/-- `float ret = (float)u; if (*str == '.') { d = igris_atou64(++str, 10, &end);
+    ret = (float)u + (float)((double)d / (double)local_pow(10, end - str)); str = end; }` -/
+def atof32Frac {F D : Type} [FloatLike F] [FloatLike D] (cvt : D → F) (u : Nat) (p : List Nat) :
+    Option (F × List Nat) :=
+  match p with
+  | [] => none
+  | c :: q =>
+    if c = 46 then
+      match atou10 (2 ^ 64) q 0 0 with
+      | none => none
+      | some (d, n, p') =>
+        match localPow10 n with
+        | none => none
+        | some pw => some (add (ofInt u) (cvt (div (ofInt (toInt64 d) : D) (ofInt pw))), p')
+    else some (ofInt u, p)
+
 /-- `igris_atof32` after the optional sign: `F` = float32_t, `D` = double;
     returns `ret` and the bytes from the final `str` on -/
 def atof32Body {F D : Type} [FloatLike F] [FloatLike D] (cvt : D → F) (p : List Nat) : Option (F × List Nat) :=
   match atou10 (2 ^ 32) p 0 0 with
   | none => none
   | some (u, _, p) =>
-    let ret0 : F := ofInt u
-    match p with
-    | [] => none
-    | c :: q =>
-      let fracPart : Option (F × List Nat) :=
-        if c = 46 then
-          match atou10 (2 ^ 64) q 0 0 with
-          | none => none
-          | some (d, n, p') =>
-            match localPow10 n with
-            | none => none
-            | some pw =>
-              some (add (ofInt u) (cvt (div (ofInt (toInt64 d) : D) (ofInt pw))), p')
-        else some (ret0, p)
-      match fracPart with
+    match atof32Frac (D := D) cvt u p with
+    | none => none
+    | some (ret, p) =>
+      match parseExp p with
       | none => none
-      | some (ret, p) =>
-        match parseExp p with
-        | none => none
-        | some (eneg, ev, p) =>
-          some (scale32 ret eneg ev, p)
+      | some (eneg, ev, p) => some (scale32 ret eneg ev, p)
 
 /-- `igris_atof32(str, &end)` -/
 def atof32 {F D : Type} [FloatLike F] [FloatLike D] (cvt : D → F) (s : List Nat) : Option (F × Nat) :=
